@@ -480,6 +480,10 @@ class Evaluator:
                 return ('const', r if isinstance(op, ast.In) else not r)
             return UNKNOWN
         if isinstance(op, (ast.Eq, ast.NotEq)):
+            for x, y in ((a, b), (b, a)):
+                if x[0] == 'absref' and is_const(y) and y[1] == 1:
+                    r = ('isconst', x[1])
+                    return r if isinstance(op, ast.Eq) else ('bnot', r)
             if is_const(a) and is_const(b):
                 r = a[1] == b[1]
                 return ('const', r if isinstance(op, ast.Eq) else not r)
@@ -537,6 +541,10 @@ class Evaluator:
         h = self.prims.get(name)
         if h is not None:
             return h(self, e, args, kwargs)
+        if name == 'abs' and len(args) == 1 and is_bexp(as_bexp(args[0])):
+            # the reference with its sign removed: only "is it a
+            # terminal" can be asked of it
+            return ('absref', as_bexp(args[0]))
         return ('unknown', f'call {name}')
 
     def descend(self, fn, args, kwargs, selfval):
